@@ -121,6 +121,10 @@ func parseHeader(b []byte, p *int, c *CCache, e *binary.ByteOrder) error {
 		f.length = uint16(readInt16(b, p, e))
 		f.value = b[*p : *p+int(f.length)]
 		*p += int(f.length)
+		if !f.known() {
+			// A file format implementation should ignore fields with unknown tags.
+			continue
+		}
 		if !f.valid() {
 			return errors.New("Invalid credential cache header found")
 		}
@@ -247,6 +251,11 @@ func (c *CCache) GetEntries() []*Credential {
 		creds = append(creds, cred)
 	}
 	return creds
+}
+
+// known reports whether the tag of the header field is one that is defined by the file format.
+func (h *headerField) known() bool {
+	return h.tag == headerFieldTagKDCOffset
 }
 
 func (h *headerField) valid() bool {
